@@ -43,6 +43,9 @@ def rawOpaque (p : RawProgram) : Bool :=
 /-- model requests for C11: `(format <premodel>)` → the text `RoocParser::format` prints for that `PreModel`. -/
 def handle (α : Type) [Arith α] [Wire α] : List Sexp → Sexp
   | [.atom "format", m] =>
+    match grammarDrift with
+    | some rule => app "err" [.atom "grammar-rule-changed", .atom rule]
+    | none =>
     match PModel.dec m with
     | some m =>
       match (exprSlots m).find? (fun e => !(linkOk e)) with
@@ -57,6 +60,9 @@ def handle (α : Type) [Arith α] [Wire α] : List Sexp → Sexp
     | none => app "err" [.atom "decode"]
   -- `(parse-program "<text>")` → the `PreModel` the program-level parser model reads, or the class of the rejection
   | [.atom "parse-program", .str s] =>
+    match grammarDrift with
+    | some rule => app "err" [.atom "grammar-rule-changed", .atom rule]
+    | none =>
     match lex s.toList with
     | .unsupported => app "err" [.atom "unsupported"]
     | .ok toks =>
